@@ -70,6 +70,8 @@ func (l *Net) Serve(establish EstablishFn) {
 					l.log.Warn("", "error", err)
 				}
 			}()
+		} else {
+			_ = conn.Close() // the listener was closed while this connection was being accepted: it is not served
 		}
 	}
 }
